@@ -27,13 +27,25 @@ type Item2 implements Node { id: ID! price: Money label: String @tag }
 input In { m: Money = 1 ms: [Money!] }
 type Query { item: Node item2: Node value: Int echo(m: Money): String nodef: Int echol(ms: [Money!]): String echoi(i: In): String }
 type Subscription { tick: Int }
+enum Level { LOW }
 """
+
+
+def sdl_of(i):
+    """same type / field / scalar / directive names in every bundle; the declarations differ too (field, enum value, default, deprecation)"""
+    return SDL + """
+extend type Item { only%d: Int stock(n: Int = %d): Int%s }
+extend enum Level { L%d }
+""" % (i, i, " @deprecated" if i % 2 else "", i)
+
 KINDS = ["resolvers", "type_resolver", "scalar", "directive", "subscription"]
 PROBES = [
     ("q", "{ value nodef item { __typename id ... on Item { price label } ... on Item2 { price label } } echo(m: 5) }"),
     ("q", "{ item2 { __typename id } item { __typename } }"),
     ("q", "query($m: Money) { echo(m: $m) }"),
     ("q", "{ __type(name: \"Money\") { name kind } __schema { subscriptionType { name } } }"),
+    ("q", "{ a: __type(name: \"Item\") { fields(includeDeprecated: true) { name isDeprecated args { name defaultValue } } } "
+          "b: __type(name: \"Level\") { enumValues { name } } __schema { types { name fields { name } enumValues { name } } } }"),
     ("s", "subscription { tick }"),
     # variables of wrapped / composite types mentioning the per-bundle scalar (value, default, absent)
     ("q", "query($m: Money!) { echo(m: $m) }"),
@@ -117,7 +129,7 @@ def register(i, kinds):
 
 def cook(i):
     from tartiflette import create_engine
-    return harness.run(create_engine(SDL, schema_name="bundle%d" % i))
+    return harness.run(create_engine(sdl_of(i), schema_name="bundle%d" % i))
 
 
 def probe(engine, variables_value):
